@@ -168,6 +168,12 @@ def run(ctx):
     from .. import typing_bind
 
     typing_bind.run_matrix(ctx, "C04")     # spec/Typing.tla: documented annotation forms x XML types x leaf types
+    # None and the empty token list in a compound field with two nillable choices (tokens first): each keeps its kind
+    from ..poly_models import NilChoices
+
+    for k, vals in enumerate(([["a", "b"], None, 3], [None], [[], None, []], [None, None, ["x"]], [3, None])):
+        ctx.case(("nil-choices", k))
+        roundtrip(ctx, NilChoices(vals=vals), NilChoices, xctx, {"model": "NilChoices", "obj": repr(vals)})
     roots = [zoo.Leaf, zoo.Item, zoo.QNames, zoo.Prims, zoo.Seq, zoo.Compound, zoo.UnionModels, zoo.UnionEl, zoo.ReqNil]
     for k, obj in enumerate(zoo.instances(ctx.seed + 4, ctx.pick(300, 10**7), roots=roots)):
         ctx.case(("zoo-dict", k))
